@@ -424,3 +424,4 @@ CHECKS['C03']["level_text"] = 'Proved for every receiver history: no writer is b
 CHECKS['C01']["level_text"] = "Proved (Qed, closed) for the No-Code scheme. Object level (C01_clean_channel_nocode, Proofs/C01Full.v, C01Esi.v): all packets the sender model emits for one transfer, through the wire bridge, into a fresh object receiver with the FDT entry attached yield Completed and a writer that received open, writes concatenating to the content, one complete. SESSION level (C01_session_clean_channel_nocode, Proofs/C01Session.v): the FDT instance the sender model prints (C10's XML printer) in one packet, read by the receiver through the reference XML parser and flute's extraction (fdt_oracle), followed by the wire packets of one transfer, pushed through recv_run from the initial state, ends with the object's writer having received open, writes = content, complete, AND the metadata handed to the writer builder equal to what the sender was given in all ten ObjectMetadata fields (location, lengths, type, cache directive, groups, MD5, OTI, cenc, ETag) - premises: accepted non-empty No-Code object, one-packet FDT, cooperative writer, FDT not expired on arrival (shown necessary). The proofs exposed D39 (ESI wrap above 65536 symbols; fixed). Other schemes, content encodings, several objects, multi-packet FDTs and receive-once are evaluated on every run by P_C01_object over real sender->receiver sessions tied to both models op by op - partial in that respect. Findings D20, D35 recorded. The filesystem-writer clause is covered by C05."
 CHECKS['C16']["level_text"] = 'Proved (Qed, closed) for the No-Code scheme. Object level (Proofs/C01Full.v): any suffix of one carousel transfer followed by one whole further transfer, more generally any list of genuine packets without close flag containing one whole transfer, is delivered complete and byte-exact. SESSION level (C16_session_late_join_nocode, C16_session_late_join_general_nocode, Proofs/C01Session.v): the receiver first sees any suffix of a transfer (packets with in-band FTI), then the one-packet FDT instance, then one whole transfer: delivered with the given metadata. Other schemes, multi-packet FDTs (mid-FDT joins), several objects and content encodings are evaluated on every run for every join offset of real carousel sessions (P_C16_object), incl. empty objects (D37 fixed) - partial in that respect.'
 CHECKS['C04']["level_text"] = "Proved (Qed, closed; 34 theorems): on a fully checked parser model (Model/AlcFixed.v: every index, slice, subtraction, division, shift can yield Panic) parse_alc_pkt, sender-time and payload-id parsing return Ok or Err for EVERY byte string; the repaired functions equal the C06 model except that its panics are errors; history theorem C04_recv_step_total / C04_recv_bytes_total: the panic flag stays false for every history of packets (also as raw bytes through push_data), clean-ups, drop and any oracle answers (one range premise: FDT Transfer-Length <= 2^64 - 2^16); the FEC oracle is consulted only inside its precondition; USABLE AFTERWARDS (Proofs/C04Usable.v): every rejected input - unparsable or short datagrams, foreign TSI, TOI-0 packets without EXT_FDT, packets of any object answered Err - leaves the receiver state unchanged (up to a flag nothing reads), and a valid No-Code session pushed after, or interleaved with, any number of them is delivered exactly as alone (composition with C02's receiver-level theorem); the proof found D41 (a damaged FDT packet blocked its instance id until cleanup; fixed). Accepted garbage that spoofs the session's own FDT is refuted (C04_usable_afterwards_full_refuted) and outside the property. Measured, not proved: heap (RLIMIT_AS), time (watchdog), the follow-up session through the real receiver on every fuzz case. MultiReceiver is exercised, not modelled here."
+CHECKS['C02']["level_text"] = "Proved (Qed, closed), any order and any duplication of genuine packets. Object level (Proofs/C02Full.v, C02RS.v): No-Code when every source symbol occurs; Reed-Solomon GF(2^8) (FEC 5 and 129) when every block has k distinct symbols, under the explicit oracle hypothesis rs_oracle_mds; RaptorQ/Raptor when all source symbols arrive (oracle hypotheses, valid decoder parameters, E-byte RaptorQ symbols). RECEIVER level (Proofs/C02Session.v, C02SessionRS.v - the plumbing proved once over an object-level interface and instantiated for No-Code, Reed-Solomon and RaptorQ/Raptor): one FDT packet and the object's packets through recv_run from the initial state, FDT first or after packets carrying in-band FTI, end with the object's writer having received open, writes = content, one complete. Premises each shown necessary by an Example: object within max_size_allocated (k x E accounting for FEC 129), at most 4097 blocks ahead, a close-object flag only once the reception is recoverable (and none before the FDT), non-empty object, cooperative writer, FDT not expired. Content encodings, multi-packet FDTs, packets WITHOUT in-band FTI cached before the FDT (bounded by the same cache limit) and several objects are evaluated on every run (P_C02_object over every subset/duplication of real sessions), not proved - partial. For an empty object the premise is read as: its packet arrives (D40 found there, fixed)."
